@@ -5,8 +5,12 @@ import (
 	"crypto/sha256"
 	"encoding/json"
 	"fmt"
+	"os"
+	"path/filepath"
 	"sort"
 	"strings"
+
+	"github.com/Khan/genqlient/generate"
 
 	"verifharness/internal/gen"
 	"verifharness/internal/proto"
@@ -55,6 +59,22 @@ func runC08(c *Ctx) {
 			c.Res.Notes = append(c.Res.Notes, "replay unreadable")
 			return
 		}
+		if len(wrap.Case.Schema) == 0 {
+			var w2 struct {
+				Case struct {
+					Case c08Case `json:"case"`
+					Leg  string  `json:"leg"`
+				} `json:"case"`
+			}
+			if json.Unmarshal(b, &w2) == nil && len(w2.Case.Case.Schema) > 0 {
+				if w2.Case.Leg == "working-directory" {
+					c08Cwd(c, w2.Case.Case)
+				} else {
+					c08Run(c, w2.Case.Case, "replay")
+				}
+				return
+			}
+		}
 		c08Run(c, wrap.Case, "replay")
 		return
 	}
@@ -87,7 +107,93 @@ func runC08(c *Ctx) {
 		cs.Ops = files
 		twin := c08Rebind(&cs.Cfg, r)
 		c08Run(c, cs, fmt.Sprintf("schemaFiles=%d|opFiles=%d|twin=%v|abstract=%v", len(cs.Schema), min(len(cs.Ops), 6), twin, p.Features["union"]+p.Features["interface"] > 0))
+		if i%5 == 0 {
+			c08Cwd(c, cs)
+		}
 	}
+}
+
+// c08Cwd: the same configuration and files, addressed from different working directories and with
+// different spellings of the config path, with the operation files OUTSIDE the config's directory
+// (a shared-queries layout); both outputs must be byte-identical ("irrespective of process, working
+// directory").
+func c08Cwd(c *Ctx, cs c08Case) {
+	c.Res.Eval()
+	root := filepath.Join(c.Work, fmt.Sprintf("c08cwd-%d", c.Res.Evaluations))
+	os.RemoveAll(root)
+	defer os.RemoveAll(root)
+	proj := filepath.Join(root, "proj")
+	shared := filepath.Join(root, "shared", "queries")
+	os.MkdirAll(proj, 0o755)
+	os.MkdirAll(shared, 0o755)
+	var y strings.Builder
+	y.WriteString("schema:\n")
+	for _, n := range sortedFileNames(cs.Schema) {
+		fp := filepath.Join(proj, n)
+		os.MkdirAll(filepath.Dir(fp), 0o755)
+		os.WriteFile(fp, []byte(cs.Schema[n]), 0o644)
+		fmt.Fprintf(&y, "- %s\n", n)
+	}
+	for _, n := range sortedFileNames(cs.Ops) {
+		os.WriteFile(filepath.Join(shared, strings.ReplaceAll(n, "/", "_")), []byte(cs.Ops[n]), 0o644)
+	}
+	y.WriteString("operations:\n- ../shared/queries/*.graphql\ngenerated: generated.go\nexport_operations: operations.json\npackage: gen\n")
+	base := cs.Cfg
+	y.WriteString(c17YamlCfg(base))
+	os.WriteFile(filepath.Join(proj, "genqlient.yaml"), []byte(y.String()), 0o644)
+	type inv struct{ cwd, cfg string }
+	invs := []inv{{root, "proj/genqlient.yaml"}, {proj, "genqlient.yaml"}, {filepath.Join(root, "shared"), "../proj/genqlient.yaml"}, {"/", filepath.Join(proj, "genqlient.yaml")}, {proj, "./genqlient.yaml"}}
+	old, _ := os.Getwd()
+	defer os.Chdir(old)
+	var ref map[string][]byte
+	var refInv inv
+	for _, iv := range invs {
+		os.Chdir(iv.cwd)
+		var m map[string][]byte
+		var err error
+		func() {
+			defer func() {
+				if r := recover(); r != nil {
+					err = fmt.Errorf("panic: %v", r)
+				}
+			}()
+			var cfg *generate.Config
+			cfg, err = generate.ReadAndValidateConfig(iv.cfg)
+			if err == nil {
+				m, err = generate.Generate(cfg)
+			}
+		}()
+		os.Chdir(old)
+		if err != nil {
+			c.Res.Count("cwd:skipped-rejected")
+			return
+		}
+		files := map[string][]byte{}
+		for k, v := range m {
+			files[filepath.Base(k)] = v
+		}
+		if ref == nil {
+			ref, refInv = files, iv
+			continue
+		}
+		for _, n := range []string{"generated.go", "operations.json"} {
+			if !bytes.Equal(ref[n], files[n]) {
+				c.Res.Add(proto.Finding{Kind: "violation", Class: "working-directory-changes-output:" + n,
+					What: fmt.Sprintf("%s differs between (cwd=%s, config=%s) and (cwd=%s, config=%s): %s", n, relTo(root, refInv.cwd), refInv.cfg, relTo(root, iv.cwd), iv.cfg, firstDifference(ref[n], files[n])),
+					Case: map[string]any{"case": cs, "leg": "working-directory", "invocations": invs}})
+				return
+			}
+		}
+	}
+	c.Res.Count("cwd:compared")
+	c.Res.NonTrivial("cwd-leg")
+}
+
+func relTo(root, p string) string {
+	if r, err := filepath.Rel(root, p); err == nil {
+		return r
+	}
+	return p
 }
 
 func c08Run(c *Ctx, cs c08Case, key string) {
